@@ -41,7 +41,11 @@ func mkInput(t, it int) []byte {
 	var b []byte
 	reps := 1 + 2*t + 3*it
 	for k := 0; k < reps; k++ {
-		b = append(b, vi(1, uint64(10000*(t+1)+100*it+k))...)
+		v := uint64(10000*(t+1) + 100*it + k)
+		if (k+t)%3 == 1 {
+			v = 0 // false for BoolValues, at thread-dependent positions
+		}
+		b = append(b, vi(1, v)...)
 	}
 	nn := (t + 2*it) % 4
 	for k := 0; k < nn; k++ {
